@@ -15,6 +15,13 @@
   Windows are delimited by stores to the marker *variables* vh_phase / vh_begin / vh_end (see the harness).
 * Per operation window: every store that falls into [.data, .bss end) as (symbol, offset); number of loads
   from that range and the set of symbols read.
+* FIRST USE: the harness is run once per configuration GROUP (`small`, `mid`, `big` = degree classes of the
+  bit-reversal code path x limb widths, see harness/footprint.cpp), each in a fresh traced process, so every
+  window is the first execution of that operation on that type after static initialisation.  The code BETWEEN two
+  windows (construction of the operands) is part of the footprint as well: a store into static storage that
+  happens after the end of window k-1 and before the end of window k is attributed to operation k (stores after
+  the last window to the last operation).  Only the harness's own bookkeeping variables (HARNESS_SYMS) are exempt.
+  A lazily initialised static is therefore seen whichever operation or constructor triggers it.
 * The result is cached under build/ keyed by the hash of /repo's include+lib, of the harness and of this
   script; the Lean file is rewritten whenever its content changes.
 
@@ -28,6 +35,14 @@ VERIF = os.path.dirname(HERE)
 BUILD = os.path.join(VERIF, "build")
 GEN = os.path.join(VERIF, "lean", "NflVerif", "Generated")
 HARNESS = os.path.join(VERIF, "harness", "footprint.cpp")
+
+# configuration groups traced under valgrind-lackey (each in its own executable: only the group's types are
+# instantiated, so only their static initialisation is traced) and the compile-time switches of the executable
+# that runs EVERY configuration under the native write-protection instrument
+LACKEY_GROUPS = {"quick": ["small", "mid"], "thorough": ["small", "mid", "big"]}
+WP_DEFS = {"quick": ["-DFP_SMALL", "-DFP_MID", "-DFP_WPONLY", "-DFP_BIG"],
+           "thorough": ["-DFP_SMALL", "-DFP_MID", "-DFP_WPONLY", "-DFP_BIG", "-DFP_HUGE"]}
+HARNESS_SYMS = ("vh_wp", "vh_sink")      # written by the harness itself between / inside windows
 
 BACKENDS = {
     "serial": ["-DNFL_OPTIMIZED"],
@@ -49,8 +64,8 @@ def repo_hash(repo):
     return h.hexdigest()[:16]
 
 
-def build(repo, backend, exe):
-    cmd = ["g++", "-std=gnu++17", "-O1", "-g", "-no-pie", "-fno-access-control", "-DNFLLIB_VERIF"] + BACKENDS[backend] + [
+def build(repo, backend, exe, defs=()):
+    cmd = ["g++", "-std=gnu++17", "-O1", "-g", "-no-pie", "-fno-access-control", "-DNFLLIB_VERIF"] + list(defs) + BACKENDS[backend] + [
         "-I" + os.path.join(repo, "include"), "-I" + os.path.join(repo, "include", "nfl"),
         "-I" + os.path.join(repo, "include", "nfl", "prng"), "-I" + os.path.join(VERIF, "harness"),
         HARNESS, os.path.join(repo, "lib", "params", "params.cpp"),
@@ -109,7 +124,8 @@ def sym_of(syms, starts, addr):
     return "(unknown)", addr
 
 
-def trace(exe, backend):
+def trace(exe, backend, group):
+    t_start = time.time()
     secs = static_range(exe)
     lo = min(a for _, a, _ in secs)
     hi = max(a + s for _, a, s in secs)
@@ -122,7 +138,7 @@ def trace(exe, backend):
     if len(mark) != 4:
         raise RuntimeError("marker variables not found by nm")
     # op list (native run)
-    r = subprocess.run([exe], capture_output=True, text=True, check=True)
+    r = subprocess.run([exe, group], capture_output=True, text=True, check=True)
     ops = []
     for l in r.stdout.splitlines():
         f = l.split()
@@ -133,14 +149,19 @@ def trace(exe, backend):
     # of the static range (instruction lines and stack/heap traffic are dropped before Python sees them)
     lo_s, hi_s = "%08x" % lo, "%08x" % (hi - 1)
     pre = os.path.commonprefix([lo_s, hi_s])
-    vg = subprocess.Popen(["valgrind", "--tool=lackey", "--trace-mem=yes", "--log-fd=2", exe],
+    vg = subprocess.Popen(["valgrind", "--tool=lackey", "--trace-mem=yes", "--log-fd=2", exe, group],
                           stdout=subprocess.DEVNULL, stderr=subprocess.PIPE)
+    try:    # a large pipe buffer: lackey writes ~10^7..10^8 short lines; fewer blocking writes / context switches
+        import fcntl
+        fcntl.fcntl(vg.stderr.fileno(), 1031, 1 << 20)     # F_SETPIPE_SZ
+    except Exception:
+        pass
     gr = subprocess.Popen(["grep", "-a", "-E", "^ [SLM] " + pre], stdin=vg.stderr, stdout=subprocess.PIPE, text=True)
     vg.stderr.close()
     phase = 0           # 0 = static initialisation, 1 = op phase, 2 = after
     cur = None          # index of the open window
     nbegin = 0
-    per = [dict(stores=[], loads=0, loadsyms=set()) for _ in ops]
+    per = [dict(stores=[], setup=0, loads=0, loadsyms=set()) for _ in ops]
     init_stores = 0
     between_stores = {}  # harness bookkeeping between windows (symbol -> count)
     kept = 0
@@ -177,12 +198,19 @@ def trace(exe, backend):
             continue
         if cur is None:
             if is_store:
-                nm, _ = sym_of(syms, starts, addr)
+                nm, off = sym_of(syms, starts, addr)
                 between_stores[nm] = between_stores.get(nm, 0) + 1
+                if nm not in HARNESS_SYMS and per:
+                    # preparation of operation `nbegin` (or clean-up after the last one): part of its footprint
+                    k = min(nbegin, len(per) - 1)
+                    per[k]["stores"].append((nm, off))
+                    per[k]["setup"] += 1
             continue
         if cur >= len(per):
             raise RuntimeError("more windows than operations")
         nm, off = sym_of(syms, starts, addr)
+        if is_store and nm in HARNESS_SYMS:
+            continue
         if is_store:
             per[cur]["stores"].append((nm, off))
         if is_load:
@@ -198,9 +226,73 @@ def trace(exe, backend):
     for (cfg, name), p in zip(ops, per):
         stores = sorted(set(p["stores"]))
         res.append({"backend": backend, "cfg": cfg, "op": name, "staticStores": stores[:64],
-                    "nStaticStores": len(p["stores"]), "staticLoads": p["loads"], "loadSyms": sorted(p["loadsyms"])})
-    return {"backend": backend, "ops": res, "init_stores": init_stores, "between_stores": between_stores,
-            "static_range": [[n, a, s] for n, a, s in secs], "static_accesses_seen": kept}
+                    "nStaticStores": len(p["stores"]), "nSetupStores": p["setup"], "staticLoads": p["loads"],
+                    "loadSyms": sorted(p["loadsyms"])})
+    return {"backend": backend, "group": group, "ops": res, "init_stores": init_stores, "between_stores": between_stores,
+            "static_range": [[n, a, s] for n, a, s in secs], "static_accesses_seen": kept,
+            "trace_s": round(time.time() - t_start, 1)}
+
+
+def trace_wp(exe, backend):
+    """native write-protection instrument: one fresh process per configuration (see harness/footprint.cpp)"""
+    t_start = time.time()
+    secs = static_range(exe)
+    syms = symbols(exe, secs)
+    starts = [s[0] for s in syms]
+    lo = min(a for _, a, _ in secs)
+    hi = max(a + s for _, a, s in secs)
+    cfgs = [l.split()[1] for l in subprocess.run([exe, "list"], capture_output=True, text=True, check=True).stdout.splitlines()
+            if l.startswith("cfg ")]
+
+    def one(cfg):
+        # (the inverse transform keeps a `value_type y[degree+1]` on the stack: 8 MiB at degree 2^20)
+        def big_stack():
+            import resource
+            soft, hard = resource.getrlimit(resource.RLIMIT_STACK)
+            want = 256 << 20
+            resource.setrlimit(resource.RLIMIT_STACK, (want if hard == resource.RLIM_INFINITY else min(want, hard), hard))
+        r = subprocess.run([exe, "wp", cfg], capture_output=True, text=True, preexec_fn=big_stack)
+        if r.returncode != 0:
+            raise RuntimeError("write-protection run of %s/%s failed rc=%d: %s" % (backend, cfg, r.returncode, r.stderr[-500:]))
+        ops, hits, end = [], [], None
+        for l in r.stdout.splitlines():
+            f = l.split()
+            if not f:
+                continue
+            if f[0] == "op":
+                assert int(f[1]) == len(ops)
+                ops.append((f[2], f[3]))
+            elif f[0] == "wp":
+                hits.append((int(f[1]), int(f[2]), int(f[3])))
+            elif f[0] == "wpend":
+                end = (int(f[1]), int(f[2]))
+        if end is None or end[0] != len(hits) or not ops or ops[-1][1] != "canary":
+            raise RuntimeError("write-protection protocol broken for %s/%s" % (backend, cfg))
+        per = [dict(stores=[], setup=0) for _ in ops]
+        for k, addr, inw in hits:
+            if not (lo <= addr < hi):
+                continue
+            nm, off = sym_of(syms, starts, addr)
+            if nm in HARNESS_SYMS:
+                continue
+            k = min(k, len(ops) - 1)
+            per[k]["stores"].append((nm, off))
+            per[k]["setup"] += (0 if inw else 1)
+        # the canary: the instrument must have seen exactly the deliberate store, in the canary's window
+        if per[-1]["stores"] != [("vh_canary", 0)] or per[-1]["setup"]:
+            raise RuntimeError("write-protection instrument did not see the canary store (%s/%s): %r" % (backend, cfg, per[-1]))
+        out = []
+        for (c, name), q in list(zip(ops, per))[:-1]:
+            out.append({"backend": backend + "/wp", "cfg": c, "op": name, "staticStores": sorted(set(q["stores"]))[:64],
+                        "nStaticStores": len(q["stores"]) + (end[1] if q["stores"] else 0), "nSetupStores": q["setup"],
+                        "staticLoads": 0, "loadSyms": []})
+        return out
+
+    with ThreadPoolExecutor(max_workers=6) as ex:
+        res = [o for part in ex.map(one, cfgs) for o in part]
+    return {"backend": backend + "/wp", "group": "wp", "ops": res, "init_stores": 0, "between_stores": {},
+            "static_range": [[n, a, s] for n, a, s in secs], "static_accesses_seen": 0, "configs": cfgs,
+            "trace_s": round(time.time() - t_start, 1)}
 
 
 def lean_str(s):
@@ -211,14 +303,18 @@ def emit(data, rhash):
     L = []
     L.append("/- GENERATED by tools/gen_footprint.py from a valgrind-lackey trace of harness/footprint.cpp built against the")
     L.append("   repository (hash %s).  DO NOT EDIT.  One entry per (backend, configuration, arithmetic API operation):" % rhash)
-    L.append("   the stores into the executable's .data/.bss observed inside the operation's window (after static")
-    L.append("   initialisation), the number of loads from .data/.bss and the static objects read. -/")
+    L.append("   the stores into the executable's .data/.bss observed inside the operation's window or in its preparation")
+    L.append("   (after static initialisation; each configuration group runs in a fresh process, so the window is the FIRST")
+    L.append("   execution of the operation), the number of loads from .data/.bss and the static objects read.")
+    L.append("   Backend `<b>/wp` = the native write-protection instrument (stores only; every configuration, each in a fresh")
+    L.append("   process); the other rows = valgrind-lackey trace. -/")
     L.append("import NflVerif.Model.FootprintDefs")
     L.append("namespace Nfl.Generated")
     L.append("open Nfl.Conc")
     L.append("")
     L.append("/-- stores into static storage during static initialisation (before `main`), per backend -/")
-    L.append("def initStores : List (String × Nat) := [%s]" % ", ".join("(%s, %d)" % (lean_str(d["backend"]), d["init_stores"]) for d in data))
+    L.append("def initStores : List (String × Nat) := [%s]" % ", ".join(
+        "(%s, %d)" % (lean_str(d["backend"] + "/" + d["group"]), d["init_stores"]) for d in data if d["group"] != "wp"))
     L.append("")
     L.append("def footprint : List OpFootprint := [")
     rows = []
@@ -238,6 +334,7 @@ def emit(data, rhash):
 def main():
     repo = "/repo"
     force = False
+    tier = os.environ.get("VERIF_TIER", "quick")
     av = sys.argv[1:]
     while av:
         a = av.pop(0)
@@ -245,6 +342,10 @@ def main():
             repo = av.pop(0)
         elif a == "--force":
             force = True
+        elif a == "--tier":
+            tier = av.pop(0)
+    if tier not in LACKEY_GROUPS:
+        tier = "quick"
     os.makedirs(BUILD, exist_ok=True)
     os.makedirs(GEN, exist_ok=True)
     t0 = time.time()
@@ -253,27 +354,39 @@ def main():
     h.update(rhash.encode())
     h.update(open(HARNESS, "rb").read())
     h.update(open(os.path.abspath(__file__), "rb").read())
+    h.update(tier.encode())
     key = h.hexdigest()[:12]
-    cache = os.path.join(BUILD, "footprint_%s.json" % key)
+    cache = os.path.join(BUILD, "footprint_%s_%s.json" % (tier, key))
     cached = False
     if os.path.exists(cache) and not force:
         data = json.load(open(cache))
         cached = True
     else:
-        def one(b):
-            exe = os.path.join(BUILD, "footprint_%s_%s" % (b, key))
-            build(repo, b, exe)
-            try:
-                return trace(exe, b)
-            finally:
+        groups = LACKEY_GROUPS[tier]
+        # executables: `lk` (groups small+mid: cheap static initialisation, traced once per group), `big` (thorough), `wp`
+        exe_of = lambda b, g: os.path.join(BUILD, "footprint_%s_%s_%s" % (b, {"small": "lk", "mid": "lk"}.get(g, g), key))
+        defs_of = {"lk": ["-DFP_SMALL", "-DFP_MID"], "big": ["-DFP_BIG"], "wp": WP_DEFS[tier]}
+        kinds = ["wp", "lk"] + (["big"] if "big" in groups else [])
+        exes = {(b, k): os.path.join(BUILD, "footprint_%s_%s_%s" % (b, k, key)) for b in BACKENDS for k in kinds}
+        jobs = [(b, g) for g in reversed(groups) for b in BACKENDS] + [(b, "wp") for b in BACKENDS]
+        try:
+            with ThreadPoolExecutor(max_workers=len(exes) + len(jobs)) as ex:
+                built = {bk: ex.submit(build, repo, bk[0], exes[bk], defs_of[bk[1]]) for bk in exes}
+
+                def one(j):
+                    b, g = j
+                    built[(b, {"small": "lk", "mid": "lk"}.get(g, g))].result()      # wait for (only) this job's executable
+                    return trace_wp(exe_of(b, g), b) if g == "wp" else trace(exe_of(b, g), b, g)
+                got = dict(zip(jobs, ex.map(one, jobs)))
+            data = [got[(b, g)] for b in BACKENDS for g in groups] + [got[(b, "wp")] for b in BACKENDS]
+        finally:
+            for e in exes.values():
                 try:
-                    os.remove(exe)
+                    os.remove(e)
                 except OSError:
                     pass
-        with ThreadPoolExecutor(max_workers=3) as ex:
-            data = list(ex.map(one, ["serial", "sse", "avx2"]))
         for old in os.listdir(BUILD):
-            if old.startswith("footprint_") and old.endswith(".json"):
+            if (old.startswith("footprint_%s_" % tier) or re.fullmatch(r"footprint_[0-9a-f]{12}\.json", old)) and old.endswith(".json"):
                 os.remove(os.path.join(BUILD, old))
         json.dump(data, open(cache, "w"))
     text = emit(data, rhash)
@@ -281,18 +394,24 @@ def main():
     old = open(path).read() if os.path.exists(path) else None
     if old != text:
         open(path, "w").write(text)
-    offenders = [{"backend": o["backend"], "cfg": o["cfg"], "op": o["op"], "stores": o["staticStores"][:8], "n": o["nStaticStores"]}
+    offenders = [{"backend": o["backend"], "cfg": o["cfg"], "op": o["op"], "stores": o["staticStores"][:8], "n": o["nStaticStores"],
+                  "in_preparation": o.get("nSetupStores", 0), "group": d["group"]}
                  for d in data for o in d["ops"] if o["nStaticStores"]]
+    first = data[0]["backend"]
     summary = {
         "repo_hash": rhash, "cached": cached, "wall_s": round(time.time() - t0, 1),
-        "backends": [d["backend"] for d in data],
-        "ops_per_backend": len(data[0]["ops"]),
+        "tier": tier, "backends": sorted({d["backend"] for d in data}), "lackey_groups": LACKEY_GROUPS[tier],
+        "wp_configs": next((d.get("configs") for d in data if d["group"] == "wp"), []),
+        "configs": sorted({o["cfg"] for d in data for o in d["ops"]}),
+        "trace_s": {d["backend"] + "/" + d["group"]: d.get("trace_s") for d in data},
+        "ops_per_backend": sum(len(d["ops"]) for d in data if d["backend"] == first),
         "entries": sum(len(d["ops"]) for d in data),
-        "init_stores": {d["backend"]: d["init_stores"] for d in data},
+        "init_stores": {d["backend"] + "/" + d["group"]: d["init_stores"] for d in data if d["group"] != "wp"},
         "static_loads_in_windows": sum(o["staticLoads"] for d in data for o in d["ops"]),
         "static_stores_in_windows": sum(o["nStaticStores"] for d in data for o in d["ops"]),
         "statics_read": sorted({s for d in data for o in d["ops"] for s in o["loadSyms"]}),
-        "between_window_stores": data[0]["between_stores"],
+        "between_window_stores": {d["group"]: d["between_stores"] for d in data if d["backend"] == first},
+        "fresh_processes": sum(len(d.get("configs", [1])) for d in data),
         "offenders": offenders[:40], "n_offenders": len(offenders),
         "static_range": data[0]["static_range"],
         "file_changed": old != text,
